@@ -20,7 +20,8 @@ MODS = ["GrinVerif.Props.XlatePmmr", "GrinVerif.Props.XlateCons", "GrinVerif.Pro
         "GrinVerif.Props.XlateSipnode",
         # phase 4 / 5
         "GrinVerif.Props.XlatePrune", "GrinVerif.Props.XlateVerify", "GrinVerif.Props.XlateVerifyZ",
-        "GrinVerif.Props.XlateVerifyT", "GrinVerif.Props.XlateVerifyD", "GrinVerif.Props.XlateCtx"]
+        "GrinVerif.Props.XlateVerifyT", "GrinVerif.Props.XlateVerifyD", "GrinVerif.Props.XlateCtx",
+        "GrinVerif.Props.XlateBag", "GrinVerif.Props.XlateSelect"]
 MODS = [m for m in MODS if os.path.exists("/verif/lean/" + m.replace(".", "/") + ".lean")]
 MODS = [m for m in MODS if m.split(".")[-1] not in os.environ.get("XLATE_MUT_SKIP", "").split(",")]
 PR, CU, CZ, CT, CD, CM, PC, BK = rs2lean.PRUNE, rs2lean.CUCKAROO, rs2lean.CUCKAROOZ, rs2lean.CUCKATOO, rs2lean.CUCKAROOD, \
@@ -41,6 +42,10 @@ MUTS_P = [   # phase 4 / 5: run with `mutate.py P`
  ("P13 new_cuckarood_ctx: node bits edge_bits - 1 -> edge_bits", CD, "Error> {\n\tlet params = CuckooParams::new(edge_bits, edge_bits - 1, proof_size)?;", "Error> {\n\tlet params = CuckooParams::new(edge_bits, edge_bits, proof_size)?;"),
  ("P14 verify_kernel_lock_heights: > -> >=", BK, "if lock_height > self.header.height {", "if lock_height >= self.header.height {"),
  ("P15 verify_nrd_kernels_for_header_version: HeaderVersion(4) -> HeaderVersion(3)", BK, "if self.header.version < HeaderVersion(4) {\n\t\t\t\treturn Err(Error::NRDKernelPreHF3);", "if self.header.version < HeaderVersion(3) {\n\t\t\t\treturn Err(Error::NRDKernelPreHF3);"),
+ ("P16 bag_the_rhs: peaks right of the peak `x > peak_pos0` -> `x >= peak_pos0`", P, ".filter(|&x| x > peak_pos0)", ".filter(|&x| x >= peak_pos0)"),
+ ("P17 root: bagging pair swapped (peak, rhash) -> (rhash, peak)", P, "\t\tlet peaks = self.peaks();\n\t\tlet mmr_size = self.unpruned_size();\n\t\tfor peak in peaks.into_iter().rev() {\n\t\t\tres = match res {\n\t\t\t\tNone => Some(peak),\n\t\t\t\tSome(rhash) => Some((peak, rhash)", "\t\tlet peaks = self.peaks();\n\t\tlet mmr_size = self.unpruned_size();\n\t\tfor peak in peaks.into_iter().rev() {\n\t\t\tres = match res {\n\t\t\t\tNone => Some(peak),\n\t\t\t\tSome(rhash) => Some((rhash, peak)"),
+ ("P18 create_pow_context: edge_bits > 29 -> edge_bits > 30", G, "\t\tif edge_bits > 29 {\n\t\t\tnew_cuckatoo_ctx", "\t\tif edge_bits > 30 {\n\t\t\tnew_cuckatoo_ctx"),
+ ("P19 create_pow_context: arms of header versions 2 and 3 swapped", G, "HeaderVersion(2) => new_cuckarood_ctx(edge_bits, proof_size),\n\t\t\t\tHeaderVersion(3) => new_cuckaroom_ctx(edge_bits, proof_size),", "HeaderVersion(2) => new_cuckaroom_ctx(edge_bits, proof_size),\n\t\t\t\tHeaderVersion(3) => new_cuckarood_ctx(edge_bits, proof_size),"),
  ("PB1 benign: locals renamed in cuckaroo verify (uvs -> ends), comment added", CU, None, "cuckaroo_rename"),
 ]
 MUTS = [
